@@ -450,7 +450,7 @@ func WiringRows(fn *ssa.Function, want func(callee string) bool) []string {
 				}
 			} else {
 				std := false
-				for _, p := range []string{"strings.", "strconv.", "regexp.", "net.", "net/url.", "path.", "sort.", "fmt.Sprintf", "fmt.Sprint", "reflect.DeepEqual", "os.", "time.", "flag.", "github.com/spf13/pflag.", "os/exec.", "syscall.", "path/filepath.", "context.With", "slices.", "maps."} {
+				for _, p := range []string{"strings.", "strconv.", "regexp.", "net.", "net/url.", "path.", "sort.", "fmt.Sprintf", "fmt.Sprint", "reflect.DeepEqual", "os.", "time.", "flag.", "github.com/spf13/pflag.", "os/exec.", "syscall.", "path/filepath.", "context.With", "slices.", "maps.", "text/template.", "io.", "bufio.", "encoding/", "crypto/"} {
 					if strings.HasPrefix(full, p) || strings.HasPrefix(full, "(*"+p) || strings.HasPrefix(full, "("+p) {
 						std = true
 					}
